@@ -59,6 +59,9 @@ def run(idx: ProgramIndex, rep: Report, tier: str):
     rep.floor("C04-5", "stores of old ++ new on the copy", len([o for o in rep.obligations if o.rule == "C04-5"]), 4)
     strategy_blocks(idx, rep)
     likelihood_copies(idx, rep)
+    rep.rule("C04-6", "the caches carried into the fantasy strategy do not depend on detach_test_caches (branches differ by .detach() only)")
+    from .c03 import detach_neutral
+    detach_neutral(idx, rep, rule="C04-6", only_functions={"get_fantasy_strategy", "get_fantasy_model"}, floor=1)
     rep.assume("exception safety is outside the statement: a deepcopy that raises (e.g. non-leaf cached tensors) leaves the source with nulled attributes, but then no fantasy model was created")
 
 
